@@ -40,9 +40,13 @@ extern int mpt_parse_format_enc(const MPT_STRUCT(parser_format) *fmt, MPT_STRUCT
 	else if ((curr = mpt_parse_nextvis(&parse->src, fmt->com, sizeof(fmt->com))) < 0) {
 		parse->curr = MPT_PARSEFLAG(Name);
 		if (!path->len && curr == -2) {
-			return curr;
+			return 0;
 		}
 		return MPT_ERROR(MissingData);
+	}
+	/* section end detected */
+	else if (path->len && fmt->send && curr == fmt->send) {
+		return parse->curr = MPT_PARSEFLAG(SectEnd);
 	}
 	/* section start missed */
 	if (curr != fmt->sstart) {
